@@ -175,7 +175,7 @@ def c02(res, scenario) -> list[Violation]:
                     in_tp = True
                 elif th == "control" and kind == "try_pause_ret":
                     in_tp = False
-                elif in_tp and th.startswith("worker[") and kind == "wait_timeout":
+                elif in_tp and kind == "wait_timeout" and obj.startswith("paused["):
                     out.append(Violation(
                         "c02:first-attempt-timeout",
                         f"pause attempt timed out waiting for {obj} (event {i}) although the in-flight "
@@ -272,8 +272,37 @@ def c04(res, scenario) -> list[Violation]:
         final = not any(e[0] in BG and e[1] != "exit" for e in ev[idx:]) and \
             any(e[0] == "control" and e[1] == "join" for e in ev[:idx])
         files = sv["files"]
-        steps_done = sum(1 for e in ev[:idx] if e[1] == "cb_end" and e[2] == "agent.step")
-        steps_begun = sum(1 for e in ev[:idx] if e[1] == "cb_begin" and e[2] == "agent.step")
+        tag = "final" if final else "runtime"
+        loaded = next((e[3] for e in ev[:idx] if e[1] == "loaded_steps" and e[2] == "agent"), 0)
+        steps_done = loaded + sum(1 for e in ev[:idx] if e[1] == "cb_end" and e[2] == "agent.step")
+        steps_begun = loaded + sum(1 for e in ev[:idx] if e[1] == "cb_begin" and e[2] == "agent.step")
+        if not final:
+            # written while every background thread is quiescent: no callback of theirs is in flight
+            # at any moment between the begin and the end of the save
+            i_begin = max((i for i in range(idx) if ev[i][0] == "control" and ev[i][1] == "save_begin"), default=None)
+            if i_begin is not None:
+                inflight: dict[str, list[str]] = {t: [] for t in BG}
+                for i in range(idx):
+                    th, kind, obj, _v = ev[i]
+                    if th in BG:
+                        if kind == "cb_begin":
+                            inflight[th].append(obj)
+                        elif kind in ("cb_end", "cb_raise") and obj in inflight[th]:
+                            inflight[th].remove(obj)
+                        elif kind == "exit":
+                            inflight[th] = []
+                    if i >= i_begin and th in BG and kind == "cb_begin":
+                        out.append(Violation(f"c04:{tag}:not-quiescent",
+                                             f"{obj} begins in the {th} thread (event {i}) while a state is "
+                                             f"being written (save began at event {i_begin})", case))
+                        break
+                    if i == i_begin:
+                        busy = [(t, o) for t in BG for o in inflight[t]]
+                        if busy:
+                            out.append(Violation(f"c04:{tag}:not-quiescent",
+                                                 f"state save begins (event {i}) while {busy[0][1]} is executing "
+                                                 f"in the {busy[0][0]} thread", case))
+                            break
         tag = "final" if final else "runtime"
         s_saved = files.get("interaction/agent/steps")
         if s_saved is None:
